@@ -13,6 +13,7 @@ from vlib import prints, write_ndjson, read_ndjson, MachineryError
 ALL_OPS = ["ModifyExpr", "ModifyLabels", "RenameRule", "ChangeKind", "CommentOnlyEdit", "PlainCommentEdit",
            "WhitespaceEdit", "ModifyAlertFields", "AddRule", "DeleteRule", "SwapRules", "FileDisableEdit", "AddFile", "DeleteFile",
            "RenameFile", "RevertLast", "BaseAdvance"]
+PHASE2_OPS = ["MultiOp", "BreakFile", "MergeBase"]
 
 CFG = """SPECIFICATION Spec
 CONSTANTS
@@ -28,6 +29,8 @@ CONSTANTS
   MaxForkRules = {maxfork}
   MaxCommits = {commits}
   MaxBaseAdv = {baseadv}
+  MaxMerge = {merges}
+  PairOps = {pairops}
   OpSet = {ops}
   ForkFdis = {forkfdis}
   TombRename = {tombrename}
@@ -43,19 +46,19 @@ def tla_set(xs):
 
 def cfg(inv, view=False, mode="greedy", **kw):
     d = dict(npaths=1, kinds=["rec"], names=["n1", "n2"], bodies=["v1", "v2"], labs=["l1", "l2"], cmts=["none"],
-             pads=[0], exts=["x0"], maxrules=3, maxfork=2, commits=2, baseadv=0, ops=ALL_OPS, forkfdis=False, tombrename=False)
+             pads=[0], exts=["x0"], maxrules=3, maxfork=2, commits=2, baseadv=0, merges=0, pairops=[], ops=ALL_OPS, forkfdis=False, tombrename=False)
     d.update(kw)
     return CFG.format(npaths=d["npaths"], kinds=tla_set(d["kinds"]), names=tla_set(d["names"]),
                       bodies=tla_set(d["bodies"]), labs=tla_set(d["labs"]), cmts=tla_set(d["cmts"]),
                       pads=tla_set(d["pads"]), exts=tla_set(d["exts"]), maxrules=d["maxrules"], maxfork=d["maxfork"], commits=d["commits"],
-                      baseadv=d["baseadv"], ops=tla_set(d["ops"]), forkfdis="TRUE" if d["forkfdis"] else "FALSE",
+                      baseadv=d["baseadv"], merges=d["merges"], pairops=tla_set(d["pairops"]), ops=tla_set(d["ops"]), forkfdis="TRUE" if d["forkfdis"] else "FALSE",
                       tombrename="TRUE" if d["tombrename"] else "FALSE",
                       mode=mode, inv=inv, view="VIEW MCView\n" if view else "")
 
 
 def case_key(c):
     """Two histories are the same case when fork tree and the (name-status, content) of every commit agree."""
-    return json.dumps([c["fork"], [[o["ns"], o["file"]] for o in c["log"]]], sort_keys=True)
+    return json.dumps([c["fork"], [[o["ns"], o["file"], o.get("more"), o.get("tree")] for o in c["log"]]], sort_keys=True)
 
 
 def gen(ctx, name, text, simulate=None, depth=None, seed=None, workers=None, timeout=1500):
@@ -84,6 +87,7 @@ def stratify(cases, budget, seed):
     for c in cases:
         h = c.get("hint", {})
         k = (c["log"][-1]["op"], len(c["log"]), min(h.get("warn", 0), 2), bool(h.get("dup")), bool(h.get("moved")),
+             bool(h.get("stale")), bool(h.get("unparsed")), bool(h.get("merged")),
              ",".join(sorted(h.get("acc", []))))
         buckets.setdefault(k, []).append(c)
     for k in buckets:
@@ -142,11 +146,11 @@ def _rule(lab):
 def probe_mode(ctx):
     """Which matchEntries variant does the tree under test implement? One hand-built history (the F5 shape) is run
     through EXEC; the answer only selects the spec variant used for MC and binding, never a verdict."""
-    absent = {"present": False, "fdis": False, "rules": []}
-    f0 = {"present": True, "fdis": False, "rules": [_rule("l1")]}
-    f1 = {"present": True, "fdis": False, "rules": [_rule("l2"), _rule("l1")]}
+    absent = {"present": False, "fdis": False, "broken": False, "rules": []}
+    f0 = {"present": True, "fdis": False, "broken": False, "rules": [_rule("l1")]}
+    f1 = {"present": True, "fdis": False, "broken": False, "rules": [_rule("l2"), _rule("l1")]}
     case = {"fork": {"a.yml": f0, "b.yml": absent, "c.yml": absent, "drafts/d.yml": absent},
-            "log": [{"op": "AddRule", "ns": {"status": "M", "src": "a.yml", "dst": "a.yml"}, "file": f1}]}
+            "log": [{"op": "AddRule", "ns": {"status": "M", "src": "a.yml", "dst": "a.yml"}, "file": f1, "more": []}]}
     _, trace = execute(ctx, [case], "probe")
     fin = [r for r in trace if r["ev"] == "Finish"]
     if not fin:
@@ -171,8 +175,10 @@ def states(xs):
     return "+".join(sorted(xs)) or "none"
 
 
-def c03_sig(v):
+def c03_sig(v, mode="twopass"):
     s = v["sig"]
-    return "C03:base=%s:head=%s:rule=%d:moved=%d:fresh=%d:acc=%s:obs=%s:greedy=%s:idfirst=%s" % (
+    impl = v["idfirst"] if mode == "twopass" else v["greedy"]
+    return "C03:base=%s:head=%s:rule=%d:moved=%d:fresh=%d:acc=%s:obs=%s:greedy=%s:idfirst=%s:impl=%s:merged=%d:misaligned=%d" % (
         letters(s["base"]) or "-", letters(s["head"]), s["rule"], int(s["moved"]), int(s["fresh"]), states(s["acc"]),
-        states(s["obs"]), states(v["greedy"]), states(v["idfirst"]))
+        states(s["obs"]), states(v["greedy"]), states(v["idfirst"]), "same" if sorted(impl) == sorted(s["obs"]) else "diff",
+        int(s.get("merged", False)), int(s.get("stale", False)))
